@@ -1,5 +1,8 @@
 import Py4hwV.Proofs.C18Complete
 import Py4hwV.Proofs.C18Place
+import Py4hwV.Proofs.C18Column
+import Py4hwV.Proofs.C18Track
+import Py4hwV.Proofs.C18Pass
 /-
   C18 — A schematic shows the circuit that exists: every block once, wired as built.
 
@@ -328,5 +331,218 @@ theorem ex_broken_chain_rejected :
 theorem ex_foreign_pin_rejected :
     Err.wire 3 .foreignPin ∈ check exD { exL with nets := exL.nets.set 0 ⟨3, 3, some 0, 2, some 1, [(135, 36), (203, 36), (203, 31), (203, 65)]⟩ } := by
   decide +kernel
+
+
+/- ================================================================================================
+   PART 2 — the passes of placeAndRoute that are now MODELLED (hand models tied per run by exact comparison with the real
+   intermediate structures) and what is PROVED about them, for all netlists.
+   Modelled: columnAssignment (Schem/Column), createNets + passthroughCreation/insertPassthrough/insertFeedback (Schem/Pass),
+   replaceAsColRow (Schem/Place), trackAssignment + routeNetSquare (Schem/Track).
+   The domain of the theorems about passthroughCreation is delimited by its three exceptions = the known findings:
+   `Err.multiple` (C18-duplicate-sink-abort), `Err.assertSinkcol` (C18-self-loop in column 1); a self loop in a later column
+   gives a chain that is not column-adjacent (C18-self-loop), excluded by `sc ≠ tc` below.
+   ================================================================================================ -/
+open Schem.Column
+
+/- ---------------------------------------------------------------- columnAssignment -/
+/-- every child gets a level ≥ 1: column 0 belongs to the input ports alone -/
+theorem level_pos (d : Design) (j : Nat) (hj : j < d.insts.length) : levels d j = some (levelOf d j) ∧ 1 ≤ levelOf d j :=
+  Schem.Column.level_pos d j hj
+
+/-- the depth-first levelling, for EVERY netlist: a child that reads another child is strictly to its right — or strictly
+    to its left, and then the edge closes a cycle (the driver depends on the reader).  Never in the same level. -/
+theorem level_edge (d : Design) (j k : Nat) (hr : Reads d j k) (hne : k ≠ j) :
+    levelOf d k < levelOf d j ∨ (levelOf d j < levelOf d k ∧ Dep d k j) := Schem.Column.level_edge d j k hr hne
+
+theorem acyclic_forward (d : Design) (hac : ∀ j k, Reads d j k → k ≠ j → ¬ Dep d k j) (j k : Nat) (hr : Reads d j k) (hne : k ≠ j) :
+    levelOf d k < levelOf d j := Schem.Column.acyclic_forward d hac j k hr hne
+
+theorem colOf_mono (d : Design) (j k : Nat) (hj : j < d.insts.length) (h : levelOf d j < levelOf d k) : colOf d j < colOf d k :=
+  Schem.Column.colOf_mono d j k hj h
+
+/-- a net between two different children that does not close a cycle runs from a column to a strictly greater one -/
+theorem forward_net_goes_right (d : Design) (j k : Nat) (hr : Reads d j k) (hne : k ≠ j) (hnc : ¬ Dep d k j) :
+    colOf d k < colOf d j := by
+  rcases Schem.Column.level_edge d j k hr hne with h | ⟨_, h⟩
+  · exact Schem.Column.colOf_mono d k j (reads_lt d j k hr).2 h
+  · exact absurd h hnc
+
+/-- no net joins two different children of the same column; one that runs right-to-left is on a cycle
+    (this is what rules out `sourcecol == sinkcol` in insertFeedback for anything but a self loop) -/
+theorem net_never_same_column (d : Design) (j k : Nat) (hr : Reads d j k) (hne : k ≠ j) :
+    colOf d k ≠ colOf d j ∧ (colOf d j < colOf d k → Dep d k j) := by
+  obtain ⟨hj, hk⟩ := reads_lt d j k hr
+  rcases Schem.Column.level_edge d j k hr hne with h | ⟨h, hd⟩
+  · have := Schem.Column.colOf_mono d k j hk h
+    exact ⟨by omega, fun h' => by omega⟩
+  · have := Schem.Column.colOf_mono d j k hj h
+    exact ⟨by omega, fun _ => hd⟩
+
+/-- column 0 is reserved for the inputs even when there are none; children start in column 1 -/
+theorem groups_col0 (d : Design) : (groups d)[0]? = some (List.range d.inp.length) := Schem.Column.groups_col0 d
+theorem colOf_pos (d : Design) (j : Nat) : 1 ≤ colOf d j := Schem.Column.colOf_pos d j
+
+/-- the matrix column of a child holds exactly the children of its level, in instance order -/
+theorem groups_child (d : Design) (j : Nat) (hj : j < d.insts.length) :
+    (groups d)[colOf d j]? = some ((levelGroup d (levelOf d j)).map (· + d.inp.length)) := Schem.Column.groups_child d j hj
+
+/-- every child gets exactly one cell of its column … -/
+theorem child_cell (d : Design) (j : Nat) (hj : j < d.insts.length) :
+    ∃ r : Nat, ((groups d)[colOf d j]?).bind (·[r]?) = some (j + d.inp.length) ∧
+      ∀ r' : Nat, ((groups d)[colOf d j]?).bind (·[r']?) = some (j + d.inp.length) → r' = r := Schem.Column.child_cell d j hj
+
+/-- … and the matrix built by columnAssignment is those column groups, cell by cell -/
+theorem colMatrix_cell (d : Design) (r c : Nat) (row : List (Option Nat)) (o : Option Nat)
+    (hr : (colMatrix d)[r]? = some row) (hc : row[c]? = some o) : o = ((groups d)[c]?).bind (·[r]?) :=
+  Schem.Column.colMatrix_cell d r c row o hr hc
+
+/-- the one-pass computation the driver runs is the modelled matrix -/
+theorem colMatrixFast_eq (d : Design) : colMatrixFast d = colMatrix d := Schem.Column.colMatrixFast_eq d
+
+/- ---------------------------------------------------------------- trackAssignment / routeNetSquare -/
+open Schem.Track
+
+/-- every net gets a track inside the channel width reserved by replaceAsColRow -/
+theorem track_lt (nets : List TNet) (i : Nat) (n : TNet) (h : nets[i]? = some n) :
+    ∃ t, trackOf nets i = some t ∧ t < tracksOfColumn nets n.sc := Schem.Track.track_lt nets i n h
+
+/-- two nets leaving the same column share a track exactly when they carry the same wire -/
+theorem track_eq_iff (nets : List TNet) (i i' : Nat) (n n' : TNet) (h : nets[i]? = some n) (h' : nets[i']? = some n')
+    (hc : n.sc = n'.sc) (t t' : Nat) (ht : trackOf nets i = some t) (ht' : trackOf nets i' = some t') :
+    t = t' ↔ n.wire = n'.wire := Schem.Track.track_eq_iff nets i i' n n' h h' hc t t' ht ht'
+
+theorem route_shape (cfg : Cfg) (k : RKind) (p0 pf : Pt) (srcX sw : Int) (t : Nat) :
+    2 ≤ (route cfg k p0 pf srcX sw t).length ∧ ∀ s ∈ segsOfPath (route cfg k p0 pf srcX sw t), s.ortho = true :=
+  Schem.Track.route_shape cfg k p0 pf srcX sw t
+
+theorem route_head (cfg : Cfg) (k : RKind) (p0 pf : Pt) (srcX sw : Int) (t : Nat) (hk : k ≠ .stopSource) :
+    (route cfg k p0 pf srcX sw t).head? = some p0 := Schem.Track.route_head cfg k p0 pf srcX sw t hk
+
+theorem route_last (cfg : Cfg) (k : RKind) (p0 pf : Pt) (srcX sw : Int) (t : Nat) (hk : k ≠ .startSink) :
+    (route cfg k p0 pf srcX sw t).getLast? = some pf := Schem.Track.route_last cfg k p0 pf srcX sw t hk
+
+/-- the vertical run of a net leaving column c lies right of the widest symbol of column c and left of column c+1 -/
+theorem mpx_in_channel (cfg : Cfg) (hcfg : cfg.NonNeg) (hts : 0 < cfg.ts) (tracks : List Nat) (m : List (List Cell)) (c t n : Nat)
+    (hn : tracks[c]? = some n) (ht : t < n) :
+    xAt cfg tracks m c + colW m c ≤ mpx cfg (xAt cfg tracks m c) (colW m c) t ∧
+    mpx cfg (xAt cfg tracks m c) (colW m c) t < xAt cfg tracks m (c + 1) :=
+  Schem.Track.mpx_in_channel cfg hcfg hts tracks m c t n hn ht
+
+/-- different tracks, different x: vertical runs of different wires in one channel never coincide -/
+theorem mpx_inj (cfg : Cfg) (hts : 0 < cfg.ts) (srcX sw : Int) (t t' : Nat) (h : mpx cfg srcX sw t = mpx cfg srcX sw t') : t = t' :=
+  Schem.Track.mpx_inj cfg hts srcX sw t t' h
+
+/- ---------------------------------------------------------------- insertPassthrough / insertFeedback, one wire -/
+open Schem.Pass
+
+theorem passWire_spec (S T sc tc : Nat) (st st' : PS) (r r' w : Nat) (hlt : sc + 1 < tc)
+    (h : passWire S T sc tc (st, r) w = .ok (st', r')) :
+    ∃ n, n ∈ st.nets ∧ n.wire = w ∧ n.src = S ∧ n.snk = T ∧
+      st'.nets = st.nets.erase n ++ chain w S n.sp ((List.range (tc - sc - 1)).map (· + st.nobjs)) T n.tp ∧
+      st'.marks = st.marks ++ List.replicate (tc - sc - 1) MK.pass ∧ st'.nb = st.nb ∧ r' = r + 1 ∧
+      st'.mat.length = st.mat.length + 1 ∧
+      (∀ i, i ≠ r + 1 → st'.mat[i]? = (insertRow st.mat (r + 1))[i]?) :=
+  Schem.Pass.passWire_spec S T sc tc st st' r r' w hlt h
+
+/-- the markers of a pass-through chain sit in ONE fresh row, in the consecutive columns sc+1 … tc−1: every link spans one column -/
+theorem passWire_cells (S T sc tc : Nat) (st st' : PS) (r r' w : Nat) (hlt : sc + 1 < tc) (hr : r < st.mat.length)
+    (hT : tc ≤ ncols st.mat) (h : passWire S T sc tc (st, r) w = .ok (st', r')) :
+    ∀ i, i < tc - sc - 1 → Schem.Pass.cellAt st'.mat (r + 1) (sc + 1 + i) = some (st.nobjs + i) :=
+  Schem.Pass.passWire_cells S T sc tc st st' r r' w hlt hr hT h
+
+/-- connectivity is preserved by insertPassthrough: source and sink stay joined through fresh markers, same wire, same ports;
+    every other net is kept -/
+theorem passWire_connected (S T sc tc : Nat) (st st' : PS) (r r' w : Nat) (hlt : sc + 1 < tc)
+    (h : passWire S T sc tc (st, r) w = .ok (st', r')) :
+    ∃ n ∈ st.nets, n.wire = w ∧ n.src = S ∧ n.snk = T ∧ Via st'.nets w st.nobjs S T ∧
+      (∃ a ∈ st'.nets, a.wire = w ∧ a.src = S ∧ a.sp = n.sp) ∧ (∃ b ∈ st'.nets, b.wire = w ∧ b.snk = T ∧ b.tp = n.tp) ∧
+      (∀ x ∈ st.nets, x ≠ n → x ∈ st'.nets) := Schem.Pass.passWire_connected S T sc tc st st' r r' w hlt h
+
+theorem feedWire_spec (S T sc tc : Nat) (st st' : PS) (w : Nat) (h : feedWire S T sc tc st w = .ok st') :
+    0 < tc ∧ ∃ n, n ∈ st.nets ∧ n.wire = w ∧ n.src = S ∧ n.snk = T ∧
+      st'.nets = st.nets.erase n ++ [{ wire := w, src := S, sp := n.sp, snk := st.nobjs, tp := none }] ++
+        backLinks w st.nobjs ((List.range (sc + 1 - tc)).map (· + (st.nobjs + 1))) ++
+        [{ wire := w, src := st.nobjs + 1 + (sc + 1 - tc), sp := none,
+           snk := (((List.range (sc + 1 - tc)).map (· + (st.nobjs + 1))).getLast?).getD st.nobjs, tp := none },
+         { wire := w, src := st.nobjs + 1 + (sc + 1 - tc), sp := none, snk := T, tp := n.tp }] ∧
+      st'.marks = st.marks ++ [MK.fbStart] ++ List.replicate (sc + 1 - tc) MK.pass ++ [MK.fbStop] ∧ st'.nb = st.nb ∧
+      st'.mat.length = max (st.mat.length + 1) st.mat.length ∧
+      (∀ i, i ≠ st.mat.length → st'.mat[i]? = (expand st.mat (st.mat.length + 1) (sc + 2))[i]?) :=
+  Schem.Pass.feedWire_spec S T sc tc st st' w h
+
+/-- connectivity is preserved by insertFeedback -/
+theorem feedWire_connected (S T sc tc : Nat) (st st' : PS) (w : Nat) (htc : tc ≤ sc)
+    (h : feedWire S T sc tc st w = .ok st') :
+    ∃ n ∈ st.nets, n.wire = w ∧ n.src = S ∧ n.snk = T ∧ Via st'.nets w st.nobjs S T ∧
+      (∃ a ∈ st'.nets, a.wire = w ∧ a.src = S ∧ a.sp = n.sp) ∧ (∃ b ∈ st'.nets, b.wire = w ∧ b.snk = T ∧ b.tp = n.tp) ∧
+      (∀ x ∈ st.nets, x ≠ n → x ∈ st'.nets) := Schem.Pass.feedWire_connected S T sc tc st st' w htc h
+
+/-- THE WHOLE PASS (createNets + passthroughCreation, any iteration order of the sets, any netlist): when it runs through — none
+    of the three exceptions that delimit the known findings — every net made by createNets is still there, or its source pin and
+    sink pin are joined by nets of the same wire running through markers only, leaving the source by the same port and entering
+    the sink by the same port; every other net touches a marker. -/
+theorem passthroughCreation_connected (d : Design) (m0 : Mat) (so : List (Nat × List Nat)) (wo : List ((Nat × Nat) × List Nat)) (st' : PS)
+    (hb : jobsBase d m0 so wo = true) (h : passthroughCreationOn d m0 so wo = .ok st') :
+    ∃ nets0, createNets d = .ok nets0 ∧ st'.nb = nB d ∧
+      (∀ x ∈ st'.nets, x ∈ nets0 ∨ x.marked (nB d)) ∧
+      (∀ x ∈ nets0, x ∈ st'.nets ∨
+        (Via (MNets st') x.wire (nB d) x.src x.snk ∧
+         (∃ a ∈ MNets st', a.wire = x.wire ∧ a.src = x.src ∧ a.sp = x.sp) ∧ (∃ b ∈ MNets st', b.wire = x.wire ∧ b.snk = x.snk ∧ b.tp = x.tp))) :=
+  Schem.Pass.passthroughCreationOn_connected d m0 so wo st' hb h
+
+/- ---------------------------------------------------------------- non-vacuity on a real library block -/
+/-- `ModuloCounter(mod=5, 3 bit)`: children one, zero, anyreset, muxinc, muxreset, e_add, add, reg, eq4 — exported netlist -/
+def exMC : Design :=
+  { insts := [⟨[], [4]⟩, ⟨[], [5]⟩, ⟨[0, 3], [6]⟩, ⟨[1, 2, 7], [8]⟩, ⟨[6, 8, 5], [9]⟩, ⟨[0, 1], [10]⟩, ⟨[2, 4], [7]⟩, ⟨[9, 10], [2]⟩, ⟨[2], [3]⟩],
+    inp := [0, 1], outp := [2, 3] }
+
+/-- symbol_matrix of the REAL Schematic(ModuloCounter) right after columnAssignment -/
+def exMC_colMatrix : List (List (Option Nat)) :=
+  [[some 0, some 2, some 8, some 5, some 6, some 9, some 10, some 4, some 11], [some 1, some 3, none, none, none, none, none, none, some 12], [none, some 7, none, none, none, none, none, none, none]]
+
+/-- iteration orders of getAllInstanceSinks / Intersection recorded from that run (note 9 ↦ [11, 5, 8, 10]: a set order) -/
+def exMC_sinkOrd : List (Nat × List Nat) := [(0, [7, 4]), (1, [7, 5]), (2, [8]), (3, [6]), (7, [9]), (8, [5]), (5, [6]), (6, [9]), (9, [11, 5, 8, 10]), (10, [12, 4]), (4, [6]), (11, []), (12, [])]
+def exMC_wireOrd : List ((Nat × Nat) × List Nat) := [((0, 4), [0]), ((1, 5), [1]), ((3, 6), [5]), ((7, 9), [10]), ((9, 11), [2]), ((9, 5), [2]), ((9, 8), [2]), ((10, 12), [3]), ((4, 6), [6])]
+
+/-- symbol_matrix and nets of the REAL run right after passthroughCreation (33 markers, three feedback chains) -/
+def exMC_ptMatrix : List (List (Option Nat)) :=
+  [[some 0, some 2, some 8, some 5, some 6, some 9, some 10, some 4, some 11], [none, none, none, none, none, none, none, some 39, none], [none, none, none, none, none, none, some 26, some 27, none], [none, some 13, some 14, some 15, some 16, some 17, some 18, none, none], [some 1, some 3, none, none, none, none, none, none, some 12], [none, none, some 21, some 22, none, none, none, none, none], [none, some 19, some 20, none, none, none, none, none, none], [none, some 7, none, none, none, none, none, none, none], [none, none, some 23, some 24, some 25, none, none, none, none], [none, none, some 32, some 31, some 30, some 29, some 28, none, none], [none, some 38, some 37, some 36, some 35, some 34, some 33, none, none], [none, none, none, some 45, some 44, some 43, some 42, some 41, some 40]]
+def exMC_ptNets : List PNet :=
+  [⟨3, 10, some 0, 4, some 1⟩, ⟨7, 8, some 0, 5, some 2⟩, ⟨8, 5, some 0, 6, some 1⟩, ⟨0, 0, some 0, 7, some 0⟩, ⟨1, 1, some 0, 7, some 1⟩, ⟨4, 2, some 0, 8, some 1⟩, ⟨9, 6, some 0, 9, some 0⟩, ⟨2, 9, some 0, 10, some 0⟩, ⟨0, 0, some 0, 13, none⟩, ⟨0, 13, none, 14, none⟩, ⟨0, 14, none, 15, none⟩, ⟨0, 15, none, 16, none⟩, ⟨0, 16, none, 17, none⟩, ⟨0, 17, none, 18, none⟩, ⟨0, 18, none, 4, some 0⟩, ⟨1, 1, some 0, 19, none⟩, ⟨1, 19, none, 20, none⟩, ⟨1, 20, none, 5, some 0⟩, ⟨5, 3, some 0, 21, none⟩, ⟨5, 21, none, 22, none⟩, ⟨5, 22, none, 6, some 2⟩, ⟨10, 7, some 0, 23, none⟩, ⟨10, 23, none, 24, none⟩, ⟨10, 24, none, 25, none⟩, ⟨10, 25, none, 9, some 1⟩, ⟨2, 9, some 0, 26, none⟩, ⟨2, 26, none, 27, none⟩, ⟨2, 27, none, 11, some 0⟩, ⟨2, 9, some 0, 28, none⟩, ⟨2, 29, none, 28, none⟩, ⟨2, 30, none, 29, none⟩, ⟨2, 31, none, 30, none⟩, ⟨2, 32, none, 31, none⟩, ⟨2, 32, none, 5, some 1⟩, ⟨2, 9, some 0, 33, none⟩, ⟨2, 34, none, 33, none⟩, ⟨2, 35, none, 34, none⟩, ⟨2, 36, none, 35, none⟩, ⟨2, 37, none, 36, none⟩, ⟨2, 38, none, 37, none⟩, ⟨2, 38, none, 8, some 0⟩, ⟨3, 10, some 0, 39, none⟩, ⟨3, 39, none, 12, some 0⟩, ⟨6, 4, some 0, 40, none⟩, ⟨6, 41, none, 40, none⟩, ⟨6, 42, none, 41, none⟩, ⟨6, 43, none, 42, none⟩, ⟨6, 44, none, 43, none⟩, ⟨6, 45, none, 44, none⟩, ⟨6, 45, none, 6, some 0⟩]
+
+/-- the model of columnAssignment reproduces the real matrix of the library block -/
+theorem exMC_column : colMatrix exMC = exMC_colMatrix := by decide +kernel
+
+/-- both cases of `level_edge` occur in it: add (child 6) reads reg (child 7) — a feedback edge on the cycle
+    reg → muxreset → muxinc → add → reg — and reg reads muxreset (child 4) — a forward edge -/
+theorem exMC_feedback_edge : Reads exMC 6 7 ∧ levelOf exMC 6 < levelOf exMC 7 ∧ Reads exMC 7 4 ∧ levelOf exMC 4 < levelOf exMC 7 := by
+  decide +kernel
+
+theorem exMC_feedback_is_cycle : Dep exMC 7 6 := (net_never_same_column exMC 6 7 (by decide +kernel) (by decide)).2 (by decide +kernel)
+
+/-- the models of createNets and passthroughCreation, run with the recorded set orders, reproduce the real matrix and nets -/
+theorem exMC_pass :
+    (match passthroughCreation exMC exMC_sinkOrd exMC_wireOrd with
+     | .ok st => st.mat == exMC_ptMatrix && st.nets == exMC_ptNets && ordersOk exMC exMC_sinkOrd exMC_wireOrd
+     | .error _ => false) = true := by decide +kernel
+
+/-- the hypotheses of `passthroughCreation_connected` hold for the library block with the recorded orders -/
+theorem exMC_pass_hyps : jobsBase exMC (colMatrix exMC) exMC_sinkOrd exMC_wireOrd = true ∧
+    ∃ st', passthroughCreationOn exMC (colMatrix exMC) exMC_sinkOrd exMC_wireOrd = .ok st' := by
+  refine ⟨by decide +kernel, ?_⟩
+  have h := exMC_pass
+  unfold passthroughCreation at h
+  cases hc : passthroughCreationOn exMC (colMatrix exMC) exMC_sinkOrd exMC_wireOrd with
+  | ok st => exact ⟨st, rfl⟩
+  | error e => rw [hc] at h; cases h
+
+/-- the hypotheses of `passWire_spec` are satisfiable: input a (object 0, column 0) → anyreset (object 4, column 7) -/
+theorem exMC_passWire_ok :
+    ∃ st' r', passWire 0 4 0 7 ({ nb := 13, marks := [], mat := exMC_colMatrix, nets := exMC_ptNets.take 8 ++ [⟨0, 0, some 0, 4, some 0⟩] }, 0) 0 = .ok (st', r') := by
+  refine ⟨_, _, rfl⟩
+
+/-- the hypotheses of `track_eq_iff` are satisfiable (three nets of two wires leaving column 0) -/
+theorem ex_tracks : trackOf [⟨5, 0, 0, 1⟩, ⟨6, 2, 0, 1⟩, ⟨5, 0, 0, 3⟩] 0 = some 0 ∧ trackOf [⟨5, 0, 0, 1⟩, ⟨6, 2, 0, 1⟩, ⟨5, 0, 0, 3⟩] 1 = some 1 ∧
+    trackOf [⟨5, 0, 0, 1⟩, ⟨6, 2, 0, 1⟩, ⟨5, 0, 0, 3⟩] 2 = some 0 := by decide +kernel
 
 end C18
